@@ -12,7 +12,7 @@ MODES = {'optimistic': {}, 'immediate': {'immediate': True}, 'serializable': {'s
          'pessimistic': {'optimistic': False}}
 OPS = ('new_person', 'new_item', 'new_tag', 'set_age', 'set_name', 'set_qty', 'move_item', 'del_person', 'del_item',
        'tag_add', 'tag_remove', 'tags_set', 'raw_insert', 'raw_update', 'db_insert', 'bulk_delete', 'query_delete',
-       'flush', 'obj_flush', 'commit', 'rollback', 'read')
+       'flush', 'obj_flush', 'commit', 'rollback', 'read', 'new_item_f', 'set_qty_f', 'del_item_f')
 NAMES = ['ann', 'bob', 'cy', 'dee']
 FOLLOWUP_ID = 999999
 
@@ -74,7 +74,7 @@ def make_template(path):
 class Env(object):
     """one Pony Database bound to a fresh copy of the template through the fault layer"""
 
-    def __init__(self, template, path, plan=None):
+    def __init__(self, template, path, plan=None, parked=None):
         from pony.orm import Database
         for p in (path, path + '-journal'):
             if os.path.exists(p):
@@ -82,6 +82,8 @@ class Env(object):
         shutil.copyfile(template, path)
         self.path = path
         self.rec = faultdb.Recorder(plan)
+        if parked is not None:
+            self.rec.parked = parked
         self.db = Database()
         self.E = define_entities(self.db)
         self.db.bind('sqlite', path, create_db=False, factory=faultdb.make_factory(self.rec), timeout=0)
@@ -128,12 +130,16 @@ class Interp(object):
         self.program = program
         self.on_commit_point = on_commit_point or (lambda label, lo, hi: None)
         self.serial = 0               # counts ops over the whole program: source of fresh explicit ids
+        self.session_starts = []      # call index at which each session began
+        self.passed = 0               # commit points the program has passed (the commit returned normally)
+        self.pending = None           # call index at which a commit point in progress began
 
     def run(self):
         from pony.orm import db_session
         for si, sess in enumerate(self.program['sessions']):
             kw = MODES[sess.get('mode', 'optimistic')]
             mark = [None]
+            self.session_starts.append(self.env.rec.count())
             try:
                 with db_session(**kw):
                     self.load()
@@ -142,9 +148,11 @@ class Interp(object):
                         self.step(si, oi, op)
                     if sess.get('end', 'commit') == 'raise':
                         raise BodyError()
-                    mark[0] = self.env.rec.count()
+                    mark[0] = self.pending = self.env.rec.count()
             except BodyError:
                 continue
+            self.passed += 1
+            self.pending = None
             self.on_commit_point('end of session %d' % si, mark[0], self.env.rec.count())
 
     def load(self):
@@ -152,6 +160,7 @@ class Interp(object):
         self.people = list(E['Person'].select().order_by(E['Person'].id))
         self.tags = list(E['Tag'].select().order_by(E['Tag'].id))
         self.items = list(E['Item'].select().order_by(E['Item'].id))
+        self.touched = []             # objects created or assigned to since the session (re)started
 
     @staticmethod
     def pick(seq, c):
@@ -168,23 +177,45 @@ class Interp(object):
             if b % 3:
                 kw['age'] = b
             self.people.append(E['Person'](**kw))
+            self.touched.append(self.people[-1])
         elif name == 'new_item':
             owner = self.pick(self.people, a) if b % 4 else None
             self.items.append(E['Item'](owner=owner, qty=c % 7) if owner is not None else E['Item'](qty=c % 7))
+            self.touched.append(self.items[-1])
+        elif name == 'new_item_f':            # create and save this object at once (Entity.flush)
+            it = E['Item'](qty=c % 7)
+            self.items.append(it)
+            it.flush()
+        elif name == 'set_qty_f':
+            it = self.pick(self.items, a)
+            if it is not None:
+                it.qty = 40 + b % 20
+                it.flush()
+        elif name == 'del_item_f':
+            it = self.pick(self.items, a)
+            if it is not None:
+                self.items.remove(it)
+                self.touched = [x for x in self.touched if x is not it]
+                it.delete()
+                it.flush()
         elif name == 'new_tag':
             self.tags.append(E['Tag'](id=100 + self.serial, label=NAMES[a % len(NAMES)]))
+            self.touched.append(self.tags[-1])
         elif name == 'set_age':
             p = self.pick(self.people, a)
             if p is not None:
                 p.age = None if b % 5 == 4 else 20 + b % 50
+                self.touched.append(p)
         elif name == 'set_name':
             p = self.pick(self.people, a)
             if p is not None:
                 p.name = NAMES[b % len(NAMES)] + str(self.serial)
+                self.touched.append(p)
         elif name == 'set_qty':
             it = self.pick(self.items, a)
             if it is not None:
                 it.qty = 10 + b % 20
+                self.touched.append(it)
         elif name == 'move_item':
             it = self.pick(self.items, a)
             if it is not None:
@@ -193,11 +224,13 @@ class Interp(object):
             p = self.pick(self.people, a)
             if p is not None:
                 self.people.remove(p)
+                self.touched = [x for x in self.touched if x is not p]
                 p.delete()
         elif name == 'del_item':
             it = self.pick(self.items, a)
             if it is not None:
                 self.items.remove(it)
+                self.touched = [x for x in self.touched if x is not it]
                 it.delete()
         elif name == 'tag_add':
             p, t = self.pick(self.people, a), self.pick(self.tags, b)
@@ -228,13 +261,15 @@ class Interp(object):
         elif name == 'flush':
             (flush if a % 2 else db.flush)()
         elif name == 'obj_flush':
-            seq = [self.people, self.items, self.tags][a % 3]
+            seq = self.touched if self.touched and a % 4 else [self.people, self.items, self.tags][a % 3]
             o = self.pick(seq, b)
             if o is not None:
                 o.flush()
         elif name == 'commit':
-            lo = self.env.rec.count()
+            lo = self.pending = self.env.rec.count()
             (commit if a % 2 else db.commit)()
+            self.passed += 1
+            self.pending = None
             self.on_commit_point('commit() in session %d after op %d' % (si, oi), lo, self.env.rec.count())
         elif name == 'rollback':
             (rollback if a % 2 else db.rollback)()
@@ -257,15 +292,22 @@ class DryRun(object):
         self.points = []      # per commit point: {'label', 'lo', 'hi', 'commit_call': index or None}
         env = Env(template, path)
         self.error = None
+        self.harness_error = None
         try:
             def on_commit_point(label, lo, hi):
                 commits = [e['i'] for e in env.rec.indexed()[lo:hi] if e['kind'] == 'commit' and e['result'] == 'ok']
                 self.points.append({'label': label, 'lo': lo, 'hi': hi, 'commit_calls': commits})
                 self.states.append(faultdb.read_database(path))
+            interp = Interp(env, program, on_commit_point)
             try:
-                Interp(env, program, on_commit_point).run()
+                interp.run()
             except Exception as e:            # a program may end in a database error of its own: still a program
+                from pony.orm.core import OrmError
+                from pony.orm.dbapiprovider import DBException
                 self.error = '%s: %s' % (type(e).__name__, str(e)[:200])
+                if not isinstance(e, (OrmError, DBException)):
+                    self.harness_error = e
+            self.session_starts = interp.session_starts
             self.calls = [dict(e) for e in env.rec.indexed()]
             self.n = len(self.calls)
             self.final = faultdb.read_database(path)
@@ -338,14 +380,25 @@ def error_run(template, path, program, dry, k, when, exc, stats=None):
     env = Env(template, path, plan)
     try:
         raised = None
+        interp = Interp(env, program)
         try:
-            Interp(env, program).run()
+            interp.run()
         except Exception as e:
             raised = e
         if not env.rec.fired:
             if k < dry.n:
                 return 'harness: the fault at call %d was never reached (fault-free run made %d calls)' % (k, dry.n)
-        allowed = dry.allowed(k, when) if k < dry.n else [len(dry.points)]
+        # commit points completed in THIS run: those the program passed, plus the one in progress when the error
+        # surfaced if its COMMIT call had been performed (the error then came from the COMMIT itself, failing after it
+        # was performed, or from a later call of the same commit point)
+        j = interp.passed
+        if raised is not None and interp.pending is not None:
+            if any(e['kind'] == 'commit' and (e['result'] == 'ok' or e['fault'] == 'after')
+                   for e in env.rec.indexed()[interp.pending:]):
+                j += 1
+        if j >= len(dry.states):
+            return 'harness: the failed run passed %d commit points, the fault-free run only %d' % (j, len(dry.states) - 1)
+        allowed = [j]
         got = faultdb.read_database(path)
         if not any(got == dry.states[j] for j in allowed):
             return _message(dry, env, k, when, exc, raised, got, allowed, 'after the failed program')
@@ -387,59 +440,78 @@ def _message(dry, env, k, when, exc, raised, got, allowed, where):
 
 # ---------------------------------------------------------------------------------------------- crash variant
 class CrashServer(object):
-    """a child python process (vlib/c17_crash.py) that forks one grand-child per request; the grand-child runs the program
-    on the given database file and dies with os._exit(137) at the requested call"""
+    """client of vlib/c17_crash.py: one child python process per request; the next one is started (and imports Pony)
+    while the current one works.  The child runs the program once per k in threads frozen at call k and then dies with
+    os._exit(137)."""
 
     def __init__(self):
-        self.proc = None
+        self.ready = None
 
-    def ensure(self):
-        if self.proc is None or self.proc.poll() is not None:
-            script = os.path.join(os.path.dirname(os.path.abspath(__file__)), 'c17_crash.py')
-            self.proc = subprocess.Popen([sys.executable, script], stdin=subprocess.PIPE, stdout=subprocess.PIPE,
-                                         universal_newlines=True, bufsize=1)
+    def spawn(self):
+        script = os.path.join(os.path.dirname(os.path.abspath(__file__)), 'c17_crash.py')
+        return subprocess.Popen([sys.executable, script], stdin=subprocess.PIPE, stdout=subprocess.PIPE,
+                                universal_newlines=True, bufsize=1)
 
     def request(self, req):
-        self.ensure()
-        self.proc.stdin.write(json.dumps(req) + '\n')
-        self.proc.stdin.flush()
-        line = self.proc.stdout.readline()
-        if not line:
-            raise RuntimeError('crash server died (exit %s)' % self.proc.poll())
-        return json.loads(line)
+        proc = self.ready or self.spawn()
+        self.ready = self.spawn()
+        line = proc.stdout.readline()
+        if line.strip() != 'ready':
+            raise RuntimeError('crash runner did not start: %r (exit %s)' % (line, proc.poll()))
+        proc.stdin.write(json.dumps(req) + '\n')
+        proc.stdin.flush()
+        code = proc.wait()
+        proc.stdin.close()
+        proc.stdout.close()
+        return {'exit': code if code >= 0 else 128 - code}
 
     def close(self):
-        if self.proc is not None and self.proc.poll() is None:
+        proc, self.ready = self.ready, None
+        if proc is not None:
             try:
-                self.proc.stdin.close()
-                self.proc.wait(30)
+                proc.stdin.write('\n')
+                proc.stdin.flush()
+                proc.wait()
+                proc.stdin.close()
+                proc.stdout.close()
             except Exception:
-                self.proc.kill()
-        self.proc = None
+                proc.kill()
+                proc.wait()
 
 
-def crash_run(server, template, path, program, dry, k):
-    """kill the process before call k is performed; returns a violation message, 'inconclusive: ...' or None"""
-    for p in (path, path + '-journal'):
-        if os.path.exists(p):
-            os.remove(p)
-    shutil.copyfile(template, path)
-    res = server.request({'program': program, 'path': path, 'k': k})
-    if res.get('exit') != 137:
-        return 'inconclusive: child did not die at call %d: %r' % (k, res)
-    allowed = dry.allowed(k, 'before')
-    got = faultdb.read_database(path)
-    if not any(got == dry.states[j] for j in allowed):
-        call = dry.calls[k]
-        same_as = [i for i, s in enumerate(dry.states) if s == got]
-        return ('process killed (os._exit) before call %d (%s %s) of %d. Database read by a new connection %s; expected '
-                'committed prefix state S%s. Difference to S%d: %s. Calls before the crash: %s'
-                % (k, call['kind'], (call['sql'] or '')[:60], dry.n,
-                   ('equals prefix state S%d' % same_as[0]) if same_as else 'equals none of the %d prefix states' % len(dry.states),
-                   '/S'.join(map(str, allowed)), allowed[0], diff_states(got, dry.states[allowed[0]]) or 'none',
-                   ' '.join('%s:%s%s' % (e['i'], e['kind'], '(%s)' % e['sql'][:40] if e['sql'] else '')
-                            for e in dry.calls[max(0, k - 8):k + 1])))
-    return None
+def crash_runs(server, template, workdir, program, dry, ks):
+    """kill a child process in which one run of the program per k is frozen right before its call k.
+    Yields (k, violation message | 'inconclusive: ...' | None)."""
+    d = os.path.join(workdir, 'crash')
+    shutil.rmtree(d, ignore_errors=True)
+    os.makedirs(d)
+    try:
+        res = server.request({'program': program, 'template': template, 'dir': d, 'ks': list(ks)})
+        status = {}
+        sp = os.path.join(d, 'status.json')
+        if os.path.exists(sp):
+            with open(sp) as f:
+                status = json.load(f)
+        for k in ks:
+            if res.get('exit') != 137 or status.get(str(k)) != 'parked':
+                yield k, 'inconclusive: child exit %r, run %d: %r' % (res.get('exit'), k, status.get(str(k)))
+                continue
+            allowed = dry.allowed(k, 'before')
+            got = faultdb.read_database(os.path.join(d, 'crash_%d.sqlite' % k))
+            if any(got == dry.states[j] for j in allowed):
+                yield k, None
+                continue
+            call = dry.calls[k]
+            same_as = [i for i, s in enumerate(dry.states) if s == got]
+            yield k, ('process killed (os._exit) right before call %d (%s %s) of %d. Database read by a new connection %s; '
+                      'expected committed prefix state S%s. Difference to S%d: %s. Calls before the crash: %s'
+                      % (k, call['kind'], (call['sql'] or '')[:60], dry.n,
+                         ('equals prefix state S%d' % same_as[0]) if same_as else 'equals none of the %d prefix states' % len(dry.states),
+                         '/S'.join(map(str, allowed)), allowed[0], diff_states(got, dry.states[allowed[0]]) or 'none',
+                         ' '.join('%s:%s%s' % (e['i'], e['kind'], '(%s)' % e['sql'][:40] if e['sql'] else '')
+                                  for e in dry.calls[max(0, k - 8):k + 1])))
+    finally:
+        shutil.rmtree(d, ignore_errors=True)
 
 
 # ---------------------------------------------------------------------------------------------- strategies
@@ -448,7 +520,8 @@ def programs():
     c = st.integers(0, 30)
     weights = dict(new_person=4, new_item=3, new_tag=2, set_age=3, set_name=2, set_qty=3, move_item=2, del_person=2,
                    del_item=2, tag_add=3, tag_remove=2, tags_set=2, raw_insert=3, raw_update=3, db_insert=3, bulk_delete=2,
-                   query_delete=1, flush=2, obj_flush=1, commit=2, rollback=1, read=2)
+                   query_delete=1, flush=2, obj_flush=2, commit=2, rollback=1, read=2,
+                   new_item_f=2, set_qty_f=2, del_item_f=1)
     names = []
     for n in OPS:
         names.extend([n] * weights[n])
